@@ -2,7 +2,7 @@ SPECIFICATION Spec
 CONSTANTS
   Isas = {"x64"}
   MaxBlocks = 2
-  Templates = {"o23", "ret", "z0"}
+  Templates = {"o23", "ret"}
   Layouts = {"none", "one"}
   FnTables = {"present", "empty", "absent"}
   Names = {"fa"}
